@@ -189,23 +189,18 @@ static void upipe_block_to_sound_input(struct upipe *upipe, struct uref *uref, s
         upipe_throw_fatal(upipe, UBASE_ERR_ALLOC);
         return;
     }
-    /* map block ubuf for reading */
-    const uint8_t *r;
-    int end = -1;
-    if (unlikely(!ubase_check(uref_block_read(uref, 0, &end, &r)))) {
+    /* copy block to sound (the block may be made of several segments) */
+    if (unlikely(!ubase_check(uref_block_extract(uref, 0, block_size,
+                                                 (uint8_t *)w)))) {
         upipe_err(upipe, "could not read uref, dropping samples");
         ubuf_sound_unmap(ubuf_block_to_sound, 0, -1, upipe_block_to_sound->planes);
-        ubuf_block_unmap(uref->ubuf, 0);
         ubuf_free(ubuf_block_to_sound);
         uref_free(uref);
         upipe_throw_fatal(upipe, UBASE_ERR_ALLOC);
         return;
     }
-    /* copy block to sound */
-    memcpy(w, r, block_size);
-    /* unmap ubufs */
+    /* unmap ubuf */
     ubuf_sound_unmap(ubuf_block_to_sound, 0, -1, upipe_block_to_sound->planes);
-    ubuf_block_unmap(uref->ubuf, 0);
     /* attach sound ubuf to uref */
     uref_attach_ubuf(uref, ubuf_block_to_sound);
     /* output pipe */
